@@ -87,7 +87,7 @@ def _gen_call(rng, first_threshold):
 def generate(rng, tier, index):
     faulty = rng.random() < 0.45
     endpoint_ok = rng.random() < 0.3
-    kinds = ("node", "str", "int", "iri", "iri2") if endpoint_ok else ("node", "str", "int", "lang", "date", "iri", "iri2")
+    kinds = ("node", "str", "int", "iri", "iri2") if endpoint_ok else ("node", "str", "int", "lang", "date", "iri", "iri2", "cdt")
     n_nodes = rng.choice([3, 4, 6, 8, 10]) if tier == "quick" else rng.choice([3, 4, 6, 8, 10, 14, 20])
     bnodes = (not endpoint_ok and rng.random() < 0.2)
     triples = gen.gen_graph(rng, n_nodes=n_nodes, n_classes=rng.randint(1, 3), n_props=rng.randint(1, 5),
@@ -95,7 +95,7 @@ def generate(rng, tier, index):
     tp = gen.CUSTOM_TYPE if rng.random() < 0.12 else gen.RDF_TYPE
     triples = gen.retype(gen.ensure_class(triples), tp)
     # rdflib-parsed sources (url) relabel blank nodes on every pass (C08's stated exception): no bnodes there
-    sources = ["raw", "file", "rdflib"] + ([] if bnodes else ["url"]) + (["endpoint", "endpoint"] if endpoint_ok else [])
+    sources = ["raw", "file", "files", "rdflib"] + ([] if bnodes else ["url"]) + (["endpoint", "endpoint"] if endpoint_ok else [])
     n_sh = 2 if rng.random() < 0.4 else 1
     if tier == "thorough" and rng.random() < 0.15:
         n_sh = 3
@@ -109,6 +109,14 @@ def generate(rng, tier, index):
                 sp["ns"] = shapers[0]["ns"]
         if "target_classes" in shapers[0]["target"] and rng.random() < 0.4:
             share["target_classes"] = True
+            if rng.random() < 0.5 and tp == gen.RDF_TYPE:
+                # prefixed class names, resolved by each Shaper with its own namespaces; the second Shaper binds 'ex'
+                # to another namespace, so for it the same list names other (absent) classes
+                shapers[0]["target"]["target_classes"] = ["ex:" + c[len(gen.EX):] for c in shapers[0]["target"]["target_classes"]]
+                if not share.get("namespaces_dict"):
+                    ns2 = {k: v for k, v in shapers[1]["ns"].items() if v != "ex"}
+                    ns2["http://elsewhere.org/"] = "ex"
+                    shapers[1]["ns"] = ns2
             for sp in shapers[1:]:
                 sp["target"] = copy.deepcopy(shapers[0]["target"])
         if rng.random() < 0.3:
@@ -161,7 +169,7 @@ def generate(rng, tier, index):
             options = []
             if target["sink"] == "file" and target["format"] == SHEXC:
                 options += [{"kind": "sink_enospc", "k": rng.randint(0, 40)}, {"kind": "sink_open_eacces"}]
-            if src == "file":
+            if src in ("file", "files"):
                 options += [{"kind": "source_eio", "n": rng.randint(0, 2 * n_lines)}] * 2
             if src == "endpoint":
                 options += [{"kind": "endpoint_outage", "at": rng.randint(0, 3 * n_nodes)},
@@ -220,6 +228,12 @@ class _World(object):
         if src == "file":
             self.n_files += 1
             return {"graph_file_input": sim.write_file("g_%s_%d.nt" % (tag, self.n_files), self.nt)}, None
+        if src == "files":
+            self.n_files += 1
+            k = max(1, len(self.triples) // 3)
+            parts = [self.triples[i:i + k] for i in range(0, len(self.triples), k)] or [[]]
+            return {"graph_list_of_files_input": [sim.write_file("g_%s_%d_%d.nt" % (tag, self.n_files, j), gen.to_nt(p))
+                                                  for j, p in enumerate(parts)]}, None
         if src == "rdflib":
             if tag.startswith("sut") and self.scen["share"].get("rdflib_graph"):
                 if self.shared_graph is None:
